@@ -91,11 +91,16 @@ def run(ctx: Context) -> None:
         rep.floor("C11.R2", f"CONNECT request construction ({tree})", len(creqs), 1)
         for c in creqs:
             kw = {k.arg: sorted({norm(a) for a in ctx.prov.expand(k.value, tf, c)}) for k in c.keywords}
-            tgt = "b'%b:%d'%(self._remote_origin.host,self._remote_origin.port)"
-            ok = kw.get("method") == ["b'CONNECT'"] and "content" not in kw
+            # the target is whatever is bound to `target` (its VALUE is decided by evaluation: remote host and port, C10.R2's obligation run here too)
+            from .c10 import connect_target_eval
+
+            tdefs = [x for x in own_nodes(tf.node) if isinstance(x, ast.Assign) and norm(x.targets[0]) == "target"]
+            tgts = {norm(x.value) for x in tdefs} | {"b'%b:%d'%(self._remote_origin.host,self._remote_origin.port)"}
+            tev_ok, tev_detail, _ = connect_target_eval(ctx, tf)
+            ok = kw.get("method") == ["b'CONNECT'"] and "content" not in kw and tev_ok
             url = kw.get("url", ["?"])[0]
-            ok = ok and f"target={tgt}" in url and "self._proxy_origin.scheme" in url
-            ok = ok and kw.get("headers") == [f"merge_headers([(b'Host',{tgt}),(b'Accept',b'*/*')],self._proxy_headers)"]
+            ok = ok and any(f"target={tgt}" in url for tgt in tgts) and "self._proxy_origin.scheme" in url
+            ok = ok and any(kw.get("headers") == [f"merge_headers([(b'Host',{tgt}),(b'Accept',b'*/*')],self._proxy_headers)"] for tgt in tgts)
             rep.ob("C11.R2", fkey(tree, tf, "connect-request"), ok, where(tf, c), f"CONNECT request: {kw}")
             for field, terms in kw.items():
                 if field == "extensions":
